@@ -28,7 +28,11 @@ class FakeSocket:
     cut (at most n bytes): the cut set is the set of fragment boundaries.  Nothing is delivered
     before `gate` is opened; at the end of the stream recv blocks for ever."""
 
-    def __init__(self, stream, cuts, rec, limit=None):
+    def __init__(self, stream, cuts, rec, limit=None, gaps=None):
+        # gaps: {stream position: seconds} -- after the fragment that ends at that position the
+        # peer pauses (virtual time), so polling receivers run into their timeouts in between
+        self.gaps = {int(k): float(v) for k, v in (gaps or {}).items()}
+        self.not_before = 0.0
         self.stream = bytes(stream)
         self.cuts = sorted(set(c for c in cuts if 0 < c < len(self.stream)))
         self.limit = len(self.stream) if limit is None else limit
@@ -50,10 +54,19 @@ class FakeSocket:
         k = max(0, min(n, nxt - self.pos, self.limit - self.pos))
         data = self.stream[self.pos:self.pos + k]
         self.pos += k
+        if self.pos in self.gaps and vcore.CUR is not None:
+            self.not_before = vcore.CUR.now + self.gaps[self.pos]
         self.rec.ev.append({'e': 'recv', 'n': n, 'k': k})
         return data
 
     def recv(self, n):
+        s = vcore.CUR
+        now = s.now if s is not None else 0.0
+        if self._ready() and self.not_before > now:
+            # the peer is pausing: the data arrives at not_before (a timed wait for the scheduler)
+            return vthreading._do(vcore.Op('sock.recv', self, lambda: self._ready() and vcore.CUR.now >= self.not_before,
+                                           lambda: self._take(n), deadline=self.not_before,
+                                           timeout_result=lambda: self._take(n)))
         return vthreading._do(vcore.Op('sock.recv', self, self._ready, lambda: self._take(n)))
 
     def send(self, data):
@@ -294,7 +307,7 @@ def run_router(sc):
     from cflib.cpx.transports import SocketTransport
     rec = Recorder()
     rng = random.Random(sc['sched'])
-    sock = FakeSocket(sc['stream'], sc['cuts'], rec, sc.get('limit'))
+    sock = FakeSocket(sc['stream'], sc['cuts'], rec, sc.get('limit'), sc.get('gaps'))
     FAKE.next = sock
     REC = rec
     try:
@@ -351,7 +364,7 @@ def run_tcp(sc):
     from ..vsched import vqueue
     rec = Recorder()
     rng = random.Random(sc['sched'])
-    sock = FakeSocket(sc['stream'], sc['cuts'], rec, sc.get('limit'))
+    sock = FakeSocket(sc['stream'], sc['cuts'], rec, sc.get('limit'), sc.get('gaps'))
     FAKE.next = sock
     REC = rec
     errors = []
@@ -534,6 +547,17 @@ class mutant:
                     r._rxQueues[function.value] = vqueue.LifoQueue()
                 return r._rxQueues[function.value].get(block=True, timeout=timeout)
             self._impl('receivePacket', rcv)
+        elif name == 'queue_dropped_on_timeout':   # a timed-out poll forgets the (empty) queue
+            def rcv2(r, function, timeout=None):
+                if function.value not in r._rxQueues:
+                    r._rxQueues[function.value] = vqueue.Queue()
+                try:
+                    return r._rxQueues[function.value].get(block=True, timeout=timeout)
+                except vqueue.Empty:
+                    if r._rxQueues[function.value].empty():
+                        del r._rxQueues[function.value]
+                    raise
+            self._impl('receivePacket', rcv2)
         elif name in ('down_payload_shift', 'down_drop_short'):
             def mk(timeout):
                 def run2(t):
@@ -586,6 +610,7 @@ MUTANTS = {
     'swap_targets': ('codec', 'router'), 'no_version_check': ('codec', 'tfull'),
     'flag_bit7': ('codec',), 'fn_mask4': ('codec',),
     'route_by_dst': ('router',), 'one_queue': ('router',), 'lifo': ('router',),
+    'queue_dropped_on_timeout': ('router', 'tcp'),
     'down_payload_shift': ('tcp',), 'down_drop_short': ('tcp',),
     'up_no_header': ('tcp',), 'up_len_plus4': ('tcp', 'loop'),
 }
@@ -740,6 +765,17 @@ def rand_cuts(rng, L):
     return [i for i in range(1, L) if rng.random() < p]
 
 
+def rand_gaps(rng, pk):
+    """peer pauses after some packets (at packet boundaries of the stream): shorter and longer than
+    the polling timeouts of the receivers (0.1 s in the drivers' receive threads, 0.2/0.3 s here)"""
+    gaps, pos = {}, 0
+    for p in pk:
+        pos += 4 + len(p[5])
+        if rng.random() < 0.4:
+            gaps[pos] = rng.choice((0.05, 0.15, 0.25, 0.35, 1.2))
+    return gaps
+
+
 def jobs_random(tier, rng):
     """long streams, random cut sets"""
     n = 60 if tier == 'quick' else 1500
@@ -760,7 +796,8 @@ def jobs_random(tier, rng):
         for r in range(1, rng.randint(1, 5) + 1):
             rcv.append((r, rng.choice(fns), rng.choice((None, None, 0.2))))
         jobs.append({'kind': 'router', 'pkts': pk, 'cuts': rand_cuts(rng, L), 'rcv': rcv, 'long': True,
-                     'sched': rng.randrange(1 << 30), 'policy': ('random', 'router_first', 'router_last')[k % 3]})
+                     'sched': rng.randrange(1 << 30), 'policy': ('random', 'router_first', 'router_last')[k % 3],
+                     'gaps': rand_gaps(rng, pk) if k % 2 else {}})
     for k in range(n):
         pk = []
         for _ in range(rng.randint(1, maxpk)):
@@ -775,7 +812,8 @@ def jobs_random(tier, rng):
         jobs.append({'kind': 'tcp', 'pkts': pk, 'cuts': rand_cuts(rng, L), 'rcv': [(1, 2, None)] if k % 2 else [],
                      'drv': 'tcp' if k % 3 else 'serial', 'sends': sends, 'sched': rng.randrange(1 << 30),
                      'wait': rng.choice((-1, 0.05)), 'tx_early': rng.random() < 0.5, 'long': True,
-                     'policy': ('random', 'router_first', 'router_last')[k % 3]})
+                     'policy': ('random', 'router_first', 'router_last')[k % 3],
+                     'gaps': rand_gaps(rng, pk) if k % 2 == 0 else {}})
     # the largest payload the 16-bit length prefix can carry, and its neighbour
     for n in ([65533] if tier == 'quick' else [65532, 65533]):
         pk = [rand_packet(rng, 2, [1]), rand_packet(rng, n, [FN_CRTP + 2]), rand_packet(rng, 0, [15])]
@@ -806,7 +844,9 @@ def mutant_battery(tier, rng):
         pk = _pkts_for(rng, [rng.choice((0, 1, 2, 9)) for _ in range(rng.randint(5, 10))], fns=fns)
         L = sum(4 + len(p[5]) for p in pk)
         bat['router'].append({'kind': 'router', 'pkts': pk, 'cuts': rand_cuts(rng, L),
-                              'rcv': [(1, fns[0], None), (2, fns[1], None), (3, fns[1], None)],
+                              'rcv': [(1, fns[0], None), (2, fns[1], None), (3, fns[1], None)]
+                              if k % 4 else [(1, fns[0], 0.2), (2, fns[1], 0.3)],
+                              'gaps': rand_gaps(rng, pk) if k % 2 == 0 else {},
                               'sched': rng.randrange(1 << 30), 'policy': ('router_first', 'random')[k % 2]})
         pk = [rand_packet(rng, rng.choice((1, 1, 2, 5, 31)), [FN_CRTP]) for _ in range(rng.randint(3, 8))]
         pk.insert(rng.randrange(len(pk)), rand_packet(rng, 3, [2]))
@@ -815,7 +855,8 @@ def mutant_battery(tier, rng):
                  for _ in range(3)]
         bat['tcp'].append({'kind': 'tcp', 'pkts': pk, 'cuts': rand_cuts(rng, L), 'rcv': [(1, 2, None)],
                            'drv': ('tcp', 'serial')[k % 2], 'sends': sends, 'sched': rng.randrange(1 << 30),
-                           'wait': -1, 'tx_early': bool(k % 3)})
+                           'wait': -1, 'tx_early': bool(k % 3),
+                           'gaps': rand_gaps(rng, pk) if k % 2 == 0 else {}})
     return bat
 
 
